@@ -21,6 +21,7 @@ def make_pvar(ctx, present):
     attrs = {k: vals[k] for k in present}
     attrs['units'] = 'ppb'
     pv = Obj(None, dict(attrs), tag='pvar')
+    pv.ghost['closed'] = True      # the PRESENCE pattern of the three fill attributes is the input of the lemma: an attribute not listed is absent
     pv.attrs['dimensions'] = ('t', 'x')
     pv.attrs['ndim'] = 2
     names = [k for k in ('units',) + tuple(present)]
@@ -44,6 +45,7 @@ def make_nfile(ctx):
 
     def create(I, a, k):
         nv = Obj(None, {'ndim': 2}, tag='nvar')
+        nv.ghost['closed'] = True  # netCDF4.Variable: _FillValue exists iff created with fill_value; no missing_value / fill_value attribute unless set
         nv.ghost['isa'] = {'netCDF4.Variable', 'netCDF4._netCDF4.Variable'}
         I.ctx.ghost.setdefault('created_with', []).append(k.get('fill_value', 'no-fill-value'))
         if 'fill_value' in k:
@@ -98,6 +100,7 @@ CONTRACTS = [FillConsistent(p) for p in PRESENCE]
 def make_plain_pvar(ctx, name):
     """abstract source variable without any fill attribute and with plain (unmasked) data"""
     pv = Obj(None, dict(units='1'), tag='pvar:' + name)
+    pv.ghost['closed'] = True      # a plain variable: none of the fill attributes
     pv.attrs['dimensions'] = ('t', 'x')
     pv.attrs['ndim'] = 2
     pv.attrs['ncattrs'] = native(lambda I, a, k: ['units'])
@@ -205,11 +208,15 @@ class AddDimensions(Contract):
         self.n = dict(t=ctx.fresh('nt'), y=ctx.fresh('ny'), x=ctx.fresh('nx'))
         dims = {'t': dim_obj(I, 't', self.n['t'], unlimited=True), 'y': dim_obj(I, 'y', self.n['y']), 'x': dim_obj(I, 'x', self.n['x'])}
         pf = Obj(None, {'dimensions': dims}, tag='pfile')
-        nf = Obj(None, {}, tag='nfile')
+        nf = Obj(None, {'dimensions': {}}, tag='nfile')
 
         def create(I2, a, k):
-            I2.ctx.ghost.setdefault('dims_created', []).append((a[0], a[1] if len(a) > 1 else k.get('size')))
-            return Obj(None, {}, tag='ndim')
+            size = a[1] if len(a) > 1 else k.get('size')
+            I2.ctx.ghost.setdefault('dims_created', []).append((a[0], size))
+            # netCDF4.Dataset.dimensions: name -> Dimension; Dimension.isunlimited() is True iff it was created with size None
+            nd = Obj(None, {'isunlimited': native(lambda I3, a3, k3: size is None), '__len__': native(lambda I3, a3, k3: 0 if size is None else size)}, tag='ndim')
+            nf.attrs['dimensions'][a[0]] = nd
+            return nd
         nf.attrs['createDimension'] = native(create)
         nf.attrs['sync'] = native(lambda I2, a, k: None)
         s = self_obj(I, PG, 'Pseudo2NetCDF', dict(unlimited_dimensions=['y'] if self.forced else [], verbose=0))
@@ -217,6 +224,41 @@ class AddDimensions(Contract):
 
     def requires(self, inp):
         return And(*[ge(x, 0) for x in self.n.values()])
+
+    def concretize(self, model, inp):
+        from pyvc.verify import model_value
+        return dict(forced=self.forced, n={k: model_value(model, v) for k, v in self.n.items()})
+
+    def concretize_without_model(self, inp):
+        return dict(forced=self.forced, n=dict(t=3, y=2, x=4))
+
+    def replay(self, c):
+        """the real converter onto a real NETCDF4 file: dimension names, order, lengths and unlimited flags after save + reopen"""
+        import numpy as np
+        import tempfile, shutil, netCDF4
+        P = import_real()
+        from PseudoNetCDF.pncgen import Pseudo2NetCDF
+        n = {k: (int(v) if isinstance(v, int) and 1 <= v <= 6 else d) for (k, v), d in zip(sorted(c['n'].items()), (3, 4, 2))}
+        f = P.PseudoNetCDFFile()
+        for k in ('t', 'y', 'x'):
+            d = f.createDimension(k, n[k])
+            if k == 't':
+                d.setunlimited(True)
+        f.createVariable('v', 'f', ('t', 'y', 'x'), values=np.zeros((n['t'], n['y'], n['x']), 'f'), units='1')
+        tmp = tempfile.mkdtemp(prefix='verif_c07_')
+        try:
+            p_ = os.path.join(tmp, 'o.nc')
+            conv = Pseudo2NetCDF(verbose=0)
+            if c['forced']:
+                conv.unlimited_dimensions = ['y']
+            conv.convert(f, p_, format='NETCDF4').close()
+            ds = netCDF4.Dataset(p_)
+            got = [(k, len(d), bool(d.isunlimited())) for k, d in ds.dimensions.items()]
+            ds.close()
+            want = [('t', n['t'], True), ('y', n['y'], bool(c['forced'])), ('x', n['x'], False)]
+            return got == want, dict(forced=c['forced'], got=got, expected=want)
+        finally:
+            shutil.rmtree(tmp, ignore_errors=True)
 
     def ensures(self, inp, res, I):
         got = I.ctx.ghost.get('dims_created', [])
@@ -356,6 +398,25 @@ def bounded(tier, seed):
                     g.close()
                 return e or H.same_snapshot(before, H.snapshot(f))
             run.case('C07:save/reopen %s%s fills=%r' % (fl, ' compressed' if cl else '', fillsets[fs]), (fl, cl, unl, fs), t)
+        # NETCDF4 holds any number of unlimited dimensions: every unlimited flag comes back (an unlimited dimension that is not the
+        # first one, two of them, all of them; record dimension of length 0 excluded: netCDF4 cannot tell it from a new one)
+        for which in (('t',), ('y',), ('t', 'y'), ('t', 'y', 'x'), ('x', 't')):
+            f = P.PseudoNetCDFFile()
+            for k_, n_ in (('t', 3), ('y', 2), ('x', 4)):
+                d_ = f.createDimension(k_, n_)
+                if k_ in which:
+                    d_.setunlimited(True)
+            f.createVariable('v', 'f', ('t', 'y', 'x'), values=np.arange(24., dtype='f').reshape(3, 2, 4), units='1')
+            path = os.path.join(tmp, 'unl_%s.nc' % '_'.join(which))
+
+            def t(f=f, path=path):
+                f.save(path, format='NETCDF4', verbose=0).close()
+                g = pncopen(path, format='netcdf')
+                try:
+                    return compare(f, g)
+                finally:
+                    g.close()
+            run.case('C07:NETCDF4 with unlimited dimensions %s' % ','.join(which), which, t)
         # explicit missing_value different from fill_value
         for mvv, fvv in ((-999.0, -1.0), (-1.0, -999.0)):
             f = P.PseudoNetCDFFile()
